@@ -402,3 +402,133 @@ def duplicate_dict_keys(ctx, relpaths, why):
                         seen[key] = k.lineno
     ctx.floor("dict literals scanned for duplicate keys", n, 1)
     ctx.holds("-", "-", f"scan for duplicate keys completed ({why})")
+
+
+class Undecided(Exception):
+    pass
+
+
+_BUILTIN_TYPES = {"str": str, "int": int, "float": float, "bool": bool, "list": list, "tuple": tuple, "dict": dict, "bytes": bytes}
+
+
+def concrete_value(expr, val):
+    """Value of an expression under a valuation {source text of a sub-expression: python constant}; raises Undecided when
+    the expression contains anything the valuation does not give and that is not a literal, comparison, boolean
+    connective, isinstance over builtin types, len() or bool().  A finite decision table, not an execution: only the
+    repository's *tests* are folded, over cells chosen by the rule."""
+    k = norm(expr)
+    if k in val:
+        return val[k]
+    if isinstance(expr, ast.Constant):
+        return expr.value
+    if isinstance(expr, (ast.Tuple, ast.List)):
+        return tuple(concrete_value(e, val) for e in expr.elts)
+    if isinstance(expr, ast.UnaryOp):
+        v = concrete_value(expr.operand, val)
+        if isinstance(expr.op, ast.Not):
+            return not v
+        if isinstance(expr.op, ast.USub) and isinstance(v, (int, float)):
+            return -v
+        raise Undecided(k)
+    if isinstance(expr, ast.BoolOp):
+        v = None
+        for e in expr.values:
+            v = concrete_value(e, val)
+            if isinstance(expr.op, ast.And) and not v:
+                return v
+            if isinstance(expr.op, ast.Or) and v:
+                return v
+        return v
+    if isinstance(expr, ast.IfExp):
+        return concrete_value(expr.body if concrete_value(expr.test, val) else expr.orelse, val)
+    if isinstance(expr, ast.Compare):
+        left = concrete_value(expr.left, val)
+        for op, r in zip(expr.ops, expr.comparators):
+            right = concrete_value(r, val)
+            try:
+                if isinstance(op, ast.Eq): ok = left == right
+                elif isinstance(op, ast.NotEq): ok = left != right
+                elif isinstance(op, ast.Is): ok = left is right
+                elif isinstance(op, ast.IsNot): ok = left is not right
+                elif isinstance(op, ast.Lt): ok = left < right
+                elif isinstance(op, ast.LtE): ok = left <= right
+                elif isinstance(op, ast.Gt): ok = left > right
+                elif isinstance(op, ast.GtE): ok = left >= right
+                elif isinstance(op, ast.In): ok = left in right
+                elif isinstance(op, ast.NotIn): ok = left not in right
+                else: raise Undecided(k)
+            except TypeError:
+                raise Undecided(k + " (the comparison raises)")
+            if not ok:
+                return False
+            left = right
+        return True
+    if isinstance(expr, ast.Call) and isinstance(expr.func, ast.Attribute) and not expr.args and not expr.keywords \
+            and expr.func.attr in ("strip", "lstrip", "rstrip", "lower", "upper"):
+        v = concrete_value(expr.func.value, val)
+        if isinstance(v, str):
+            return getattr(v, expr.func.attr)()
+        raise Undecided(k)
+    if isinstance(expr, ast.Call) and isinstance(expr.func, ast.Name) and not expr.keywords:
+        if expr.func.id == "isinstance" and len(expr.args) == 2:
+            v = concrete_value(expr.args[0], val)
+            ts = expr.args[1].elts if isinstance(expr.args[1], ast.Tuple) else [expr.args[1]]
+            types = []
+            for t in ts:
+                if not (isinstance(t, ast.Name) and t.id in _BUILTIN_TYPES):
+                    raise Undecided(k)
+                types.append(_BUILTIN_TYPES[t.id])
+            return isinstance(v, tuple(types))
+        if expr.func.id in ("len", "bool") and len(expr.args) == 1:
+            v = concrete_value(expr.args[0], val)
+            try:
+                return len(v) if expr.func.id == "len" else bool(v)
+            except TypeError:
+                raise Undecided(k)
+    raise Undecided(k)
+
+
+def concrete_truth(expr, val):
+    """bool / None (undecided)"""
+    try:
+        return bool(concrete_value(expr, val))
+    except Undecided:
+        return None
+
+
+def identity_of_values(ctx, subdirs, why):
+    """`a is b` between two value-carrying operands asks whether they are the same object; equal values (two equal
+    ints, a numpy bool and True, two equal strings built at run time) are in general different objects.  Identity is
+    accepted against the singletons None / True / False / Ellipsis / NotImplemented and against enum-style constants
+    (an attribute in capitals); anything else is reported."""
+    n = 0
+    for sub in subdirs:
+        for rel in ([sub] if sub.endswith(".py") else ctx.repo.all_py(sub)):
+            try:
+                mod = ctx.repo.module(rel)
+            except Exception:
+                continue
+            for c in ast.walk(mod.tree):
+                if not isinstance(c, ast.Compare):
+                    continue
+                operands = [c.left] + list(c.comparators)
+                for i, op in enumerate(c.ops):
+                    if not isinstance(op, (ast.Is, ast.IsNot)):
+                        continue
+                    n += 1
+                    a, b = operands[i], operands[i + 1]
+
+                    def singleton(x):
+                        return (isinstance(x, ast.Constant) and (x.value is None or x.value is True or x.value is False or x.value is Ellipsis)) \
+                            or (isinstance(x, ast.Name) and x.id in ("NotImplemented", "Ellipsis")) \
+                            or (isinstance(x, ast.Attribute) and x.attr.isupper()) \
+                            or (isinstance(x, ast.Call) and isinstance(x.func, ast.Name) and x.func.id == "type") \
+                            or (isinstance(x, ast.Name) and x.id[:1].isupper())
+                    if singleton(a) or singleton(b):
+                        continue
+                    from ..model import enclosing_function, qualname
+                    fn = enclosing_function(c)
+                    ctx.violated(rel, qualname(fn) if fn is not None else "<module>", why, detail=norm(c),
+                                 expected=norm(c).replace(" is not ", " != ").replace(" is ", " == "))
+    ctx.holds("-", "-", f"identity comparisons scanned ({n}): {why}")
+    return n
